@@ -81,39 +81,36 @@ Definition is_int_imm (o : operand) : bool := match o with OInt _ => true | _ =>
 
 Definition nth_op (ops : list operand) (i : nat) : operand := nth i ops OLabel.
 
-(* the loop "for (i = args_start; i < nops; i++)" over call / unspec operands; [k] = i - args_start *)
+(* one iteration of the loop "for (i = args_start; i < nops; i++)" over call / unspec operands;
+   [k] = i - args_start *)
+Definition blk_here (p : proto) (k : nat) (o : operand) : res unit :=
+  let nres := length (p_res p) in
+  let nonblk : res unit :=          (* operand is not block memory: the parameter must not be a block *)
+    if nres <=? k then
+      match nth_error (p_args p) (k - nres) with
+      | Some (pt, _) => if all_blk_type_p pt then Err E_wrong_type else Ok tt
+      | None => Ok tt
+      end
+    else Ok tt in
+  match o with
+  | OMem t disp _ _ =>
+      if all_blk_type_p t then
+        if k <? nres then Err E_wrong_type
+        else match nth_error (p_args p) (k - nres) with
+             | Some (pt, psize) =>
+                 if negb (type_eqb pt t) then Err E_wrong_type
+                 else if negb (Z.eqb psize disp) then Err E_wrong_type
+                 else Ok tt
+             | None => if type_eqb t T_RBLK then Err E_wrong_type else Ok tt
+             end
+      else nonblk
+  | _ => nonblk
+  end.
+
 Fixpoint check_blk_args (p : proto) (k : nat) (ops : list operand) : res unit :=
   match ops with
   | [] => Ok tt
-  | o :: ops' =>
-      let nres := length (p_res p) in
-      let here : res unit :=
-        match o with
-        | OMem t disp _ _ =>
-            if all_blk_type_p t then
-              if k <? nres then Err E_wrong_type
-              else match nth_error (p_args p) (k - nres) with
-                   | Some (pt, psize) =>
-                       if negb (type_eqb pt t) then Err E_wrong_type
-                       else if negb (Z.eqb psize disp) then Err E_wrong_type
-                       else Ok tt
-                   | None => if type_eqb t T_RBLK then Err E_wrong_type else Ok tt
-                   end
-            else if nres <=? k then
-              match nth_error (p_args p) (k - nres) with
-              | Some (pt, _) => if all_blk_type_p pt then Err E_wrong_type else Ok tt
-              | None => Ok tt
-              end
-            else Ok tt
-        | _ =>
-            if nres <=? k then
-              match nth_error (p_args p) (k - nres) with
-              | Some (pt, _) => if all_blk_type_p pt then Err E_wrong_type else Ok tt
-              | None => Ok tt
-              end
-            else Ok tt
-        end in
-      bind here (fun _ => check_blk_args p (S k) ops')
+  | o :: ops' => bind (blk_here p k o) (fun _ => check_blk_args p (S k) ops')
   end.
 
 (* [unspec] = the context's table of registered unspec prototypes *)
